@@ -100,6 +100,20 @@ Proof. exact (GeoSink.geo_sink_lag m s h g). Qed.
 Theorem C09_geo_sink_init m : GeoSink.GS m s_empty [] Geo.empty_iov.
 Proof. exact (GeoSink.GS_empty m). Qed.
 
+(* the encoder at memory level (hcobs/GeoEnc.v writing into the geometry-faithful iovec): at every point of every history of
+   encode / encode_copy / encode_read calls and consumer Reads, what the Reads returned so far followed by the bytes of the
+   slices the consumer may look at now (stable_prefix: the slices before the first pending placeholder) is a prefix of the
+   final encoding, whatever input is still to come *)
+From WP Require iovec.Geo hcobs.GeoEnc hcobs.GeoEncProofs.
+Theorem C09_geo_encoder_prefix (mi ms : nat) ops e h g ge' h' g' out st :
+  0 < mi <= 252 -> 0 < ms < RADIX * RADIX ->
+  Forall GeoEncProofs.simple ops ->
+  GeoEnc.ge_new [] Geo.empty_iov mi = Some (e, h, g) ->
+  GeoEncProofs.ge_run ms e h g ops = Some (ge', h', g', out) ->
+  Geo.stable_slices g' = Some st ->
+  forall z, exists t, encode_ref mi ms (concat (GeoEncProofs.gpieces ops) ++ z) = (out ++ concat (map (Geo.sl_bytes h') st)) ++ t.
+Proof. intros Hmi Hms. exact (GeoEncProofs.genc_prefix mi ms Hmi Hms ops e h g ge' h' g' out st). Qed.
+
 Print Assumptions C09_encoder_prefix_and_lag.
 Print Assumptions C09_geo_sink_push.
 Print Assumptions C09_geo_sink_register.
@@ -109,3 +123,4 @@ Print Assumptions C09_geo_slice_lag.
 Print Assumptions C09_encoder_complete.
 Print Assumptions C09_decoder_prefix.
 Print Assumptions C09_encoder_lag_prod.
+Print Assumptions C09_geo_encoder_prefix.
